@@ -3,8 +3,8 @@
 //@tier quick
 //@profile rel
 //@assume BitReaderReversed is abstract here; its contract is Verus unit BRR1 (safety/position) - bit values are Kani BRRK.*
-//@assume table_wf (every state's baseline + 2^num_bits stays inside the table, symbols within the alphabet) is the postcondition of table construction (units F2/F3; see their assumptions) and of reset (FD5: empty table, accuracy_log 0)
-//@assume FSETable::build_decoder / build_from_probabilities are abstract here (units F3/F2, F2C); the three `Vec::from(&..DEFAULT_DISTRIBUTION[..])` argument expressions are replaced by abstract constructors
+//@assume table_wf (every state's baseline + 2^num_bits stays inside the table, symbols within the alphabet) is the postcondition of table construction (proved by units F2/F3 on the verbatim bodies) and of reset (FD5: empty table, accuracy_log 0)
+//@assume FSETable::build_decoder / build_from_probabilities are abstract here (units F3/F2 prove build_decoder's contract, shared text include/contract_fse_build_decoder.rs; Kani F2C the predefined tables); the three `Vec::from(&..DEFAULT_DISTRIBUTION[..])` argument expressions are replaced by abstract constructors
 use vstd::prelude::*;
 verus! {
 
@@ -174,9 +174,7 @@ impl FSETable {
     /// F3 + F2 (abstract here): parse a table description and build the decoding table
     #[verifier::external_body]
     pub fn build_decoder(&mut self, source: &[u8], max_log: u8) -> (r: Result<usize, FSETableError>)
-        ensures
-            final(self).max_symbol == old(self).max_symbol,
-            r matches Ok(n) ==> n <= source@.len() && final(self).table_wf() && final(self).accuracy_log != 0,
+//@include contract_fse_build_decoder.rs
     { unimplemented!() }
 
     /// F2 on the three predefined distributions (abstract here)
@@ -247,7 +245,7 @@ pub open spec fn spec_mode(m: u8) -> ModeType {
 
 //@extract file=ruzstd/src/decoding/sequence_section_decoder.rs fn=maybe_update_fse_tables rewrite="&Vec::from(&LITERALS_LENGTH_DEFAULT_DISTRIBUTION[..])=>&ll_default_distribution()||&Vec::from(&OFFSET_DEFAULT_DISTRIBUTION[..])=>&of_default_distribution()||&Vec::from(&MATCH_LENGTH_DEFAULT_DISTRIBUTION[..])=>&ml_default_distribution()||.ok_or(DecodeSequenceError::MissingCompressionMode)?=>.ok_or(DecodeSequenceError::MissingCompressionMode)?"
 //@spec
-    requires old(scratch).wf(),
+    requires old(scratch).wf(), source@.len() <= 0x1_0000_0000,
     ensures
         r matches Ok(n) ==> n <= source@.len() && final(scratch).wf(),
         // per mode (literal lengths; the other two are symmetric and read the bytes that follow)
